@@ -177,8 +177,12 @@ def conditioning(fx, sr, n):
                       states reach (1 + 1/k) times the signal; R = 8
       EQ filter       same structure with a = 10^(gain/40) and g, k as in the cited Cytomic paper (bell: k = 1/(q a);
                       low shelf g/sqrt a, high shelf g sqrt a, k = 1/q); output taps up to max(1, a^2)
-      reverb          combs with loop gain `feedback`: min(n / comb length, 1/(1 - feedback)) passes + all-passes; R = 3
-      delay           loop gain 10^(fb/20): min(n / D, 1/(1 - gain)) passes, R = 2; a nested effect multiplies A by its K"""
+    Feedback loops around a long delay (delay, reverb combs) are different: with loop gain 1 nothing decays, and for
+    deterministic inputs (DC, steps) the roundings of successive passes have the same sign, so the errors add linearly
+    in the number of passes P instead of in quadrature: |e| <= R P 2^-25 S per run, three runs = 0.08 R P units; the
+    constant used is 0.25 R P (three times that) on top of the memoryless part:
+      reverb          P = min(n / shortest comb length, 1/(1 - feedback)), R = 3: K = ceil(2 sqrt(30) + 0.75 P)
+      delay           P = min(n / D, 1/(1 - 10^(fb/20))), R = 2: K = ceil((4 + 0.5 P) * A); a nested effect multiplies A by its K"""
     t = fx["t"]
     if t in ("vol", "pan"):
         R, T, A = 3, 1, 1
@@ -202,16 +206,18 @@ def conditioning(fx, sr, n):
     elif t == "reverb":
         ln = max(1, int(1116 * sr / 44100))
         fb = min(max(fx["fb"], 0.0), 1.0)
-        R, T, A = 3, min(n / ln, 1 / (1 - fb) if fb < 1 else 1e18) + 10, 1
+        passes = min(n / ln, 1 / (1 - fb) if fb < 1 else 1e18)
+        return int(min(math.ceil(2 * math.sqrt(3 * 10) + 0.25 * 3 * passes), 1 << 30))
     elif t == "delay":
         d = max(1, int(fx["time_ns"] * 1e-9 * sr))
         gfb = 10 ** (min(fx["fb"], 0.0) / 20) if fx["fb"] > -60 else 0.0
-        R, T, A = 2, min(n / d, 1 / (1 - gfb) if gfb < 1 else 1e18) + 2, 1
+        passes, A = min(n / d, 1 / (1 - gfb) if gfb < 1 else 1e18), 1
         for nf in fx.get("nested", []):
             kn = conditioning(nf, sr, n)
             if kn is None:
                 return None
             A *= kn
+        return int(min(math.ceil((2 * math.sqrt(2 * 2) + 0.25 * 2 * passes) * A), 1 << 30))
     else:
         return None                                            # compressor, distortion: not linear
     return int(min(math.ceil(2 * math.sqrt(R * T) * A), 1 << 30))
